@@ -20,7 +20,8 @@ RULE = ("histories of 8-30 ops over 1-3 subjects (user:u1, u2, u10, u1x; some ne
         "(1-3 objects each, type-level (key '') and instance-level, over types channel/chan/rack/range and the zero "
         "id; 1-3 actions): create/delete role and policy (also delete-then-recreate with the same key), SetOnRole, "
         "Assign/Unassign, define/delete subject, making the Users group a parent of subjects / policies (non-role "
-        "parents must grant nothing), begin/commit/abort, one-transaction role replacement (unassign then re-assign the same role, checked on the "
+        "parents must grant nothing), begin/commit/abort, object lists re-checked through one reused slice (other subjects, before/after assign/unassign; a list "
+        "rewritten by Enforce is reported), refused deletes of internal roles followed by a check, one-transaction role replacement (unassign then re-assign the same role, checked on the "
         "committed view after commit) (30% of the histories on an ontology whose relationship indexes failed to populate at "
         "open, i.e. on the raw-scan fallback of the parents traversal), interleaved with Enforce requests (0-3 objects "
         "mixing covered and uncovered ones, through the open transaction and against the committed view) so that a "
@@ -128,6 +129,37 @@ def gen_case(rng):
             e = gen_enforce(rng, subs, pols, False)
             e["s"] = s
             ops.append(e)
+    if rng.random() < 0.3 and pols:
+        # one object list (a covered object first, an uncovered one behind it, ...) checked several times through
+        # the SAME slice: for different subjects and before / after an assign or unassign
+        base = gen_enforce(rng, subs, pols, in_tx)
+        po = rng.choice(rng.choice(pols)["objs"])
+        cov = {"t": po["t"], "k": po["k"] or "1"}
+        base["objs"] = [cov] + [mkid(rng.choice(OBJECTS)) for _ in range(rng.choice([1, 1, 2]))]
+        if rng.random() < 0.3:
+            rng.shuffle(base["objs"])
+        ops.append(base)
+        for _ in range(rng.choice([1, 2, 3])):
+            if rng.random() < 0.5:
+                ops.append({"op": rng.choice(["assign", "unassign"]), "s": mkid(rng.choice(subs)),
+                            "r": rng.randrange(1, nr + 1)})
+            e = dict(base)
+            e["reuse"] = True
+            e["s"] = mkid(rng.choice(subs))
+            if rng.random() < 0.3:
+                e["act"] = rng.choice(ACTIONS)
+            e["committed"] = in_tx and rng.random() < 0.3
+            ops.append(e)
+    if rng.random() < 0.15:
+        # a delete of an internal role through a writer without allowInternal is refused: a failed mutation must
+        # not change any later verdict
+        s, r = mkid(rng.choice(subs)), nr + 1
+        pk = rng.randrange(1, np_ + 1)
+        ops += [{"op": "role", "k": r, "internal": True, "allow": True}, {"op": "seton", "r": r, "ks": [pk]},
+                {"op": "assign", "s": s, "r": r}]
+        e = gen_enforce(rng, subs, pols, in_tx)
+        e["s"] = s
+        ops += [e, {"op": "delrole", "k": r, "allow": False}, dict(e)]
     for _ in range(rng.randrange(4, 16)):
         x = rng.random()
         if x < 0.45:
@@ -268,6 +300,12 @@ def c_outcome(o, e):
 def harness_violation(case, r):
     if r.get("panic"):
         return "panic: " + r["panic"]
+    for k, (o, s) in enumerate(zip(case["ops"], r.get("steps") or [])):
+        if s.get("mutated"):
+            return ("Enforce (op #%d) rewrote the caller's object list %s into %s: a later check of the same list "
+                    "no longer decides about the requested objects"
+                    % (k, [x["t"] + ":" + x["k"] for x in o.get("objs") or []],
+                       [a + ":" + b for a, b in s.get("mutated_to") or []]))
     for o, s in zip(case["ops"], r.get("steps") or []):
         e = s["err"]
         if e not in ERR and not (o["op"] == "enforce" and e == "denied"):
@@ -306,6 +344,17 @@ def nontrivial(case, r):
     return allow >= 1 and deny >= 1 and rev_after_allow
 
 
+def fixup(case):
+    """after shrinking: a reuse flag only makes sense behind an Enforce over the same object list"""
+    last = None
+    for o in case["ops"]:
+        if o["op"] == "enforce":
+            if o.get("reuse") and (last is None or last != o.get("objs")):
+                o["reuse"] = False
+            last = o.get("objs")
+    return case
+
+
 def histogram(case, r):
     ks = ["subjects=%d" % len(case["subjects"]), "ops=%d" % (len(case["ops"]) // 5 * 5),
           "flavour=%s" % ("scan-fallback" if case.get("scan") else "indexed")]
@@ -319,6 +368,8 @@ def histogram(case, r):
                 ks.append("next_check_after=%s/%s" % (prev, e))
             if o.get("committed"):
                 ks.append("enforce_committed_view_in_tx")
+            if o.get("reuse"):
+                ks.append("enforce_reuses_previous_object_slice")
         prev = o["op"]
     return ks
 
